@@ -14,6 +14,7 @@ NEVER_KEYS = ["N1", "N2"]  # never mentioned by any generated program
 WHOLE_KEYS = ["S", "L", "S.T"]  # prefixes of other keys (read as a whole section / list)
 
 SCALARS = [0, 1, 2, True, False, None, "", "a", "b"]
+WIDE_VALUES = [1.0, 1.5, -0.0, 2 ** 70, -1, "é¿ü", "w" * 300, "S.X", "A", [[1], []], [0, [1, [2]]]]
 DISPATCH_VALUES = ["a", "b", "c", 1, 2, None]  # hashable; no two equal in Python
 # (escaped braces appear in Template node texts only: a dictionary value "\\{lit\\}" resolves to "{lit}", which a
 #  template that stringifies it would re-interpret as a reference — a C09 matter, not claimed here)
@@ -264,6 +265,13 @@ class DictGen:
             return r.choice(DISPATCH_VALUES)
         if self.cfg.get("tmpl") and r.random() < 0.2:
             return r.choice(TEMPLATES)
+        if self.cfg.get("wide_values") and r.random() < 0.15:
+            # values a tiny universe never shows: floats next to equal ints, signed zero, a big int, non-ASCII and long strings,
+            # a string that looks like a dotted key, nested lists
+            v = r.choice(WIDE_VALUES)
+            if isinstance(v, list) and for_key not in SCALAR_KEYS:
+                v = 1.5  # (containers only where the generator's own path arithmetic expects a leaf)
+            return copy.deepcopy(v)
         return r.choice(SCALARS)
 
     def value_for(self, key):
